@@ -50,6 +50,15 @@ def is_dim(a, axis):
     return False
 
 
+def stored_dim(t, nm):
+    """t is the stored tilemap's width / height: the accessor TilemapData::width(..), or (a crate-private helper of TilemapData inlined)
+    the field itself of the handle's own tilemap data"""
+    t = strip_casts(t)
+    if t[0] == 'call' and t[1] == TM + 'TilemapData::' + nm:
+        return True
+    return t[0] == 'field' and t[2] == nm and t[1][0] == 'call' and t[1][1] == TM + 'Tilemap::tilemap' and is_param(t[1][2][0], 1)
+
+
 def loop_end(a):
     r = P.loop_var_end(a)
     return None if r is None else r
@@ -89,7 +98,7 @@ def lookup(ctx):
         def off(i):
             return P.canon(('field', offs, str(i)))
         want = None
-        ws = [x for k, v in m2 for x in k if x[0] == 'call' and x[1] == TM + 'TilemapData::width']
+        ws = [x for k, v in m2 for x in k if stored_dim(x, 'width')]
         if ws:
             W = ws[0]
             want = P.make((1, ('param', 3, 'y'), W), (-1, off(1), W), (1, ('param', 2, 'x')), (-1, off(0)))
@@ -109,8 +118,8 @@ def lookup(ctx):
                 if o == op and P.poly(l) == pv and rhs(P.canon(r)):
                     return True
             return False
-        okg = has('Lt', xs, lambda r: r[0] == 'call' and r[1] == TM + 'TilemapData::width') and \
-            has('Lt', ys, lambda r: r[0] == 'call' and r[1] == TM + 'TilemapData::height') and \
+        okg = has('Lt', xs, lambda r: stored_dim(r, 'width')) and \
+            has('Lt', ys, lambda r: stored_dim(r, 'height')) and \
             has('Ge', xs, lambda r: r[0] == 'const' and r[1] == 0) and has('Ge', ys, lambda r: r[0] == 'const' and r[1] == 0)
         ctx.inst('Q1', 'Tilemap::tile#range', okg, 'the stored tile is read only under 0 <= x-ox < stored width and 0 <= y-oy < stored height (%s); '
                  'everything else yields EMPTY_TILE' % ('yes' if okg else [(o, show(l)[:40], show(r)[:40]) for o, l, r in g]), b.span,
